@@ -48,7 +48,7 @@ func checkC05Read(c c05ReadCase) string {
 		return "harness: model not encodable"
 	}
 	g := c.Doc.GSI
-	s, err := astisub.ReadFromSTL(bytes.NewReader(b), astisub.STLOptions{IgnoreTimecodeStartOfProgramme: c.IgnoreTCP})
+	s, err := astisub.ReadFromSTL(deliver(b), astisub.STLOptions{IgnoreTimecodeStartOfProgramme: c.IgnoreTCP})
 	if err != nil {
 		return fmt.Sprintf("reader rejected a well-formed file: %v", err)
 	}
@@ -396,6 +396,12 @@ func TestC05(t *testing.T) {
 		addRecodes(rt, &c.Doc)
 		addBlankRowsAndComments(rt, &c.Doc)
 		nt, ls := c05Labels(c.Doc)
+		for _, cu := range c.Doc.Cues {
+			if cu.EBN > 0 {
+				ls = append(ls, "extension-block-number-below-ffh")
+				break
+			}
+		}
 		ev.Case(nt, fmt.Sprintf("r%v", c), append(ls, "read")...)
 		if nt && len(c.Doc.Cues) <= 2 {
 			ev.Sample("read", c)
